@@ -288,7 +288,7 @@ vec_reserve_grow!(vec_reserve_grow_9, 9);
 vec_reserve_grow!(vec_reserve_grow_3, 3);
 
 counting! {
-    // @h props=C04,C13,C16 tier=quick group=step allow=^overflow.@|capacity_overflow|raw_vec|handle_error|core::option::expect_failed must_fail=. note=reserve_with_unrepresentable_total_must_not_return(inline_vec)
+    // @h props=C04,C13,C16 tier=quick group=step allow=^overflow.@|placeholder.message.*in.function.(alloc::raw_vec::capacity_overflow|alloc::raw_vec::handle_error|core::option::expect_failed) must_fail=. note=reserve_with_unrepresentable_total_must_not_return(inline_vec)
     pub fn vec_reserve_overflow() {
         unsafe {
             let (mut m, g) = st_vec();
@@ -429,7 +429,7 @@ counting! {
 }
 
 counting! {
-    // @h props=C04,C13,C16 tier=quick group=step allow=^overflow.@|capacity_overflow|raw_vec|handle_error|core::option::expect_failed must_fail=. note=reserve_with_unrepresentable_total_must_not_return(shared_form)
+    // @h props=C04,C13,C16 tier=quick group=step allow=^overflow.@|placeholder.message.*in.function.(alloc::raw_vec::capacity_overflow|alloc::raw_vec::handle_error|core::option::expect_failed) must_fail=. note=reserve_with_unrepresentable_total_must_not_return(shared_form)
     pub fn arc_reserve_overflow() {
         unsafe {
             let (mut m, g) = st_arc(false);
@@ -1076,13 +1076,13 @@ ooc!(ooc_advance_arc, st_arc(false), |m, g| {
     kani::assume(n > g.len);
     m.advance(n);
 });
-// @h props=C13,C02,C04 tier=quick group=ooc allow=panic_advance|(placeholder.message|assertion.failed).*advance_mut must_fail=. note=BufMut::advance_mut(cnt>spare_capacity)
+// @h props=C13,C02,C04 tier=quick group=ooc allow=in.function.panic_advance|(placeholder.message|assertion.failed).*advance_mut must_fail=. note=BufMut::advance_mut(cnt>spare_capacity)
 ooc!(ooc_advance_mut, st_vec(), |m, g| {
     let n: usize = kani::any();
     kani::assume(n > g.cap - g.len);
     BufMut::advance_mut(&mut m, n);
 });
-// @h props=C13,C02,C04 tier=quick group=ooc allow=^overflow.@|capacity_overflow|raw_vec|handle_error|core::option::expect_failed must_fail=. note=BytesMut::resize(len_beyond_isize::MAX)
+// @h props=C13,C02,C04 tier=quick group=ooc allow=^overflow.@|placeholder.message.*in.function.(alloc::raw_vec::capacity_overflow|alloc::raw_vec::handle_error|core::option::expect_failed) must_fail=. note=BytesMut::resize(len_beyond_isize::MAX)
 ooc!(ooc_resize_huge, st_vec(), |m, g| {
     let n: usize = kani::any();
     kani::assume(n > isize::MAX as usize);
@@ -1105,3 +1105,56 @@ pub fn noop_truncate() {
         end_reached!();
     }
 }
+
+// ================================================================================== C13 (ii): nothing of the handle is modified when Vec's capacity-overflow panic is raised
+// Kani cannot run the unwinding, but it can look at the handle AT the panic site: `alloc::raw_vec::capacity_overflow`
+// (the panic raised inside Vec::reserve / Vec::with_capacity for unrepresentable sizes) is replaced by an observer
+// that compares the registered handle with the snapshot taken before the call.  If the fields are bit-identical when
+// the panic starts, unwinding hands the caller the handle it had before (Shared::vec's unused length field, which
+// reserve_inner sets before growing a uniquely owned shared buffer, is not part of the handle and is not observed).
+pub static mut OBS_HANDLE: *const BytesMut = core::ptr::null();
+pub static mut OBS_SNAP: (usize, usize, usize, usize) = (0, 0, 0, 0);
+pub static mut OBS_HITS: usize = 0;
+pub fn observing_capacity_overflow() -> ! {
+    unsafe {
+        OBS_HITS += 1;
+        if !OBS_HANDLE.is_null() {
+            let h = &*OBS_HANDLE;
+            assert!(h.ptr.as_ptr() as usize == OBS_SNAP.0, "handle modified before the capacity-overflow panic: ptr");
+            assert!(h.len == OBS_SNAP.1, "handle modified before the capacity-overflow panic: len");
+            assert!(h.cap == OBS_SNAP.2, "handle modified before the capacity-overflow panic: cap");
+            assert!(h.data as usize == OBS_SNAP.3, "handle modified before the capacity-overflow panic: data");
+        }
+    }
+    panic!("observed capacity overflow")
+}
+unsafe fn observe(m: &BytesMut) {
+    OBS_HANDLE = m as *const BytesMut;
+    OBS_SNAP = (m.ptr.as_ptr() as usize, m.len, m.cap, m.data as usize);
+}
+
+macro_rules! observed_overflow {
+    ($name:ident, $st:expr, |$m:ident, $n:ident| $call:expr) => {
+        #[kani::proof]
+        #[kani::unwind(10)]
+        #[kani::stub(alloc::raw_vec::capacity_overflow, observing_capacity_overflow)]
+        pub fn $name() {
+            unsafe {
+                let (mut $m, g) = $st;
+                kani::assume(g.len > 0);
+                let $n: usize = kani::any();
+                kani::assume($n > isize::MAX as usize);
+                observe(&$m);
+                end_reached!();
+                $call;
+                assert!(false, "RETURNED: an unrepresentable capacity request returned");
+            }
+        }
+    };
+}
+// @h props=C13,C04 tier=quick group=ooc allow=^observed.capacity.overflow.@|^overflow.@|core::option::expect_failed must_fail=^observed.capacity.overflow.@ note=inline-Vec_form:reserve(huge)_handle_untouched_when_Vec's_panic_starts
+observed_overflow!(vec_reserve_overflow_observed, st_vec(), |m, n| m.reserve(n));
+// @h props=C13,C04 tier=quick group=ooc allow=^observed.capacity.overflow.@|^overflow.@|core::option::expect_failed must_fail=^observed.capacity.overflow.@|^overflow.@|expect_failed note=shared_form:reserve(huge)_handle_untouched_when_the_panic_starts
+observed_overflow!(arc_reserve_overflow_observed, st_arc(false), |m, n| m.reserve(n));
+// @h props=C13,C04 tier=quick group=ooc allow=^observed.capacity.overflow.@|^overflow.@|core::option::expect_failed must_fail=^observed.capacity.overflow.@ note=inline-Vec_form:resize(huge)_handle_untouched_when_the_panic_starts
+observed_overflow!(vec_resize_overflow_observed, st_vec(), |m, n| m.resize(n, 0));
